@@ -34,6 +34,9 @@ DocumentedDiagram(d) ==
     /\ \A x, y \in Decls(d) : x.comp = y.comp => x = y                    \* declared at most once
     /\ \A x \in Decls(d) : x.alias # "" => x.form # "component"            \* alias only on bracketed declarations
     /\ \A x, y \in Decls(d) : (x.alias # "" /\ x.alias = y.alias) => x = y
+    /\ \A x \in Decls(d) : x.alias # "" =>                                 \* an alias is not ANOTHER component's name
+          \A c \in {y.comp : y \in Decls(d)} \cup UNION {{y.left.comp, y.right.comp} : y \in ArrowsOf(d)} :
+              c # x.comp => c # <<x.alias>>
     /\ \A r \in Refs(d) : r.how = "alias" => AliasOf(d, r.comp) # ""      \* alias declared somewhere (any line order)
     /\ \A x \in ArrowsOf(d) : x.left.comp # x.right.comp                   \* no self-arrows
 
